@@ -321,6 +321,7 @@ func init() {
 		esib.CheckMaskedScan(run, p, "SIB-scan")
 		arithmeticFoundations(c)
 		groupFoundations(c, true)
+		ownershipRules(c) // generated keys are independent copies; inputs are not modified or kept
 		readFullRule(c)
 		// "always verifiable": every verifier sibling and the short-vector reduction behind the
 		// verification equation
